@@ -190,6 +190,20 @@ func csSweep() []func(*CSParams) {
 
 func genCS(r *lib.Rand, h *History, i int) {
 	p := CSParams{Fee: sp("3000000000000000"), PCF: Coin{1, sp("5000")}, Tax: sp("400000000000000000"), Uni: sp("2000000000000000")}
+	if j := i - len(csSweep()); j >= 0 && j < 7 { // boundary x repetition: every rate at its valid extremes, three pool creations, repeated swaps
+		eps, almost := "1", new(big.Int).Sub(p18, big.NewInt(1)).String()
+		[]func(){func() { p.Fee = sp(eps) }, func() { p.Fee = sp(almost) }, func() { p.Tax = sp(eps) }, func() { p.Tax = sp(almost) },
+			func() { p.Uni = sp("0") }, func() { p.Uni = sp(almost) }, func() { p.Fee = sp(almost); p.Tax = sp(almost); p.Uni = sp(almost); p.PCF.A = sp("1") }}[j]()
+		h.CS = &p
+		h.Via = sweepVia(j)
+		amt := func(lo, hi int64) string { return big.NewInt(r.Range(lo, hi)).String() }
+		h.Steps = []Step{{"create_pool", []string{"0", amt(100000, 1000000000000), amt(100000, 1000000000000)}},
+			{"create_pool", []string{"1", amt(1000, 1000000), amt(1000, 1000000)}}, {"create_pool", []string{"2", amt(1000, 1000000), amt(1000, 1000000)}},
+			{"sell", []string{amt(1, 100000000)}}, {"sell", []string{"1"}}, {"buy", []string{amt(1, 90000)}}, {"buy", []string{"1"}},
+			{"add_uni", []string{amt(1, 10000000000)}}, {"add_uni", []string{"1"}}, {"remove_uni", []string{amt(1, 90000)}}, {"remove_uni", []string{"1"}},
+			{"sell", []string{r.Big(36).Add(r.Big(36), big.NewInt(1)).String()}}}
+		return
+	}
 	if sw := csSweep(); i < len(sw) {
 		sw[i](&p)
 		h.CS = &p
